@@ -103,7 +103,9 @@ def gen_plan(rng, tier, run):
     full = tier == "thorough" and rng.random() < 0.15
     plan = {"recipe": r, "full_flips": full, "prefixes": "all" if (full or rng.random() < 0.5) else "sample",
             "fseed": rng.randrange(1 << 30), "opts": rng.choice([["-E"], ["-E"], ["-E", "-P"], ["-E", "-x"]]),
-            "nflips": 120 if tier == "quick" else 400, "registry": rng.random() < 0.3}
+            "nflips": 120 if tier == "quick" else 400, "registry": rng.random() < 0.3,
+            # which single-PEL path of the CLI reads the damaged file
+            "cli": rng.choice(["-f", "-f", "-f", "-i", "-a", "--bmc-id"])}
     return plan
 
 
@@ -219,6 +221,7 @@ def execute(plan):
             if not ok or ref.exit != 0 or hits:
                 raise HarnessError("intact PEL does not decode cleanly: exit=%r stderr=%s hits=%s" % (ref.exit, ref.stderr[-300:], hits[:2]))
             max_steps = steps.count
+            gname = common.bmc_name(r)
             for f in faults:
                 bad = apply(data, f)
                 if bad == data:
@@ -229,36 +232,45 @@ def execute(plan):
                 del hits[:]
                 # ---- CLI
                 steps.arm(len(bad))
-                res = w.run(["-f", "@/F/pel"] + plan["opts"])
+                cli = plan.get("cli", "-f")
+                if cli == "-f":
+                    argv = ["-f", "@/F/pel"] + plan["opts"]
+                else:
+                    # the damaged file is the only file of a PEL directory, stored under its BMC-style name
+                    w.put("G/" + gname, bad)
+                    argv = ["-p", "@/G"] + {"-i": ["-i", "%08X" % r["eid"]], "-a": ["-a"], "--bmc-id": ["--bmc-id", str(r["bmc_id"])]}[cli] + plan["opts"]
+                res = w.run(argv)
                 evals += 1
                 events += len(res.events)
                 max_steps = max(max_steps, steps.count)
                 fdesc = json.dumps(f)
                 if res.exc and res.exc.startswith("StepBudgetExceeded"):
-                    vio.append(V("hang", "peltool -f on %s (%d bytes) exceeded the step budget: %s" % (fdesc, len(bad), res.exc), f))
+                    vio.append(V("hang", "peltool %s on %s (%d bytes) exceeded the step budget: %s" % (cli, fdesc, len(bad), res.exc), f))
                     break
                 oc = None
                 if res.exc:
-                    vio.append(V("uncaught-exception", "peltool -f on %s: %s; stderr tail: %s" % (fdesc, res.exc, res.stderr[-600:]), f))
+                    vio.append(V("uncaught-exception", "peltool %s on %s: %s; stderr tail: %s" % (cli, fdesc, res.exc, res.stderr[-600:]), f))
                     oc = "uncaught"
                 elif res.exit not in (0, 1) and not isinstance(res.exit, str):
-                    vio.append(V("exit-status", "peltool -f on %s: exit status %r" % (fdesc, res.exit), f))
+                    vio.append(V("exit-status", "peltool %s on %s: exit status %r" % (cli, fdesc, res.exit), f))
                     oc = "badexit"
                 if "Traceback (most recent call last)" in res.stderr and not res.exc:
-                    vio.append(V("traceback", "peltool -f on %s printed a traceback: %s" % (fdesc, res.stderr[-500:]), f))
+                    vio.append(V("traceback", "peltool %s on %s printed a traceback: %s" % (cli, fdesc, res.stderr[-500:]), f))
                 hexmode = "-x" in plan["opts"]
                 produced_doc = False
                 if res.stdout:
-                    if hexmode:
+                    if res.stdout.strip() == "PEL not found" and plan.get("cli") in ("-i", "--bmc-id"):
+                        pass
+                    elif hexmode:
                         blocks = common.split_hex_blocks(res.stdout)
                         produced_doc = True
                         if blocks is None or len(blocks) != 1 or blocks[0] != bad:
                             vio.append(V("stdout-malformed", "peltool -f -x on %s: stdout is not the dump of the input" % fdesc, f))
                     else:
                         ok, j = common.parse_json_stream(res.stdout)
-                        produced_doc = True
+                        produced_doc = not (plan.get("cli") == "-a" and ok and j == [])
                         if not ok:
-                            vio.append(V("stdout-not-json", "peltool -f on %s: stdout is not one JSON document: %r" % (fdesc, res.stdout[:200]), f))
+                            vio.append(V("stdout-not-json", "peltool %s on %s: stdout is not one JSON document: %r" % (cli, fdesc, res.stdout[:200]), f))
                 if is_prefix and produced_doc:
                     vio.append(V("prefix-decoded", "peltool -f decoded a %d-byte proper prefix of a %d-byte PEL (exit %r, -O=%s): %s" % (
                         len(bad), len(data), res.exit, opt == "O1", res.stdout[:150].replace("\n", " ")), f))
@@ -306,7 +318,7 @@ def execute(plan):
                     if any(f["off"] == e for _, s, e in offs):
                         bump("prefix_on_section_boundary")
                     where = next((sid for sid, s, e in offs if s <= f["off"] < e), "?")
-                    traces.add("torn|%s|%s|%s|%s" % (where, oc, po, opt))
+                    traces.add("torn|%s|%s|%s|%s|%s" % (where, oc, po, opt, plan.get("cli", "-f")))
                 elif f["kind"] == "flip":
                     if f.get("field"):
                         bump("flip_in_length_field")
